@@ -74,7 +74,7 @@ Definition ops_of (ds : list doc) : list op :=
 Definition err_eqb (a b : err) : bool :=
   match a, b with
   | EAlreadyExists, EAlreadyExists | ENotFound, ENotFound | EPatchFailed, EPatchFailed
-  | EJqFailed, EJqFailed | ENotServed, ENotServed | EOther, EOther => true
+  | EJqFailed, EJqFailed | ENotServed, ENotServed | EConflict, EConflict | EOther, EOther => true
   | _, _ => false
   end.
 
